@@ -36,9 +36,13 @@ Definition entry_ok (orders : list entry) (sd : side) (x : key * nat) : Prop :=
 Definition side_ok (orders : list entry) (sd : side) (x : sidest) : Prop :=
   ksorted (sd_orders x) /\ Forall (entry_ok orders sd) (sd_orders x).
 
+(** the stored key price is the transform of the order's price as long as the order can still be
+    queued (a terminal order keeps whatever key it had last) *)
+Definition live (st : status) : Prop := st = SNew \/ st = SActive.
 Definition entry_wf (i : nat) (e : entry) : Prop :=
   o_id (e_order e) = i /\ e_kside e = o_side (e_order e) /\
-  e_kp e = kp_of (o_side (e_order e)) (o_price (e_order e)) /\ o_price (e_order e) <= MAXP.
+  (live (o_status (e_order e)) -> e_kp e = kp_of (o_side (e_order e)) (o_price (e_order e))) /\
+  o_price (e_order e) <= MAXP.
 Definition table_wf (orders : list entry) : Prop :=
   forall i e, nth_error orders i = Some e -> entry_wf i e.
 
@@ -103,8 +107,8 @@ Lemma crosses_guard sd s agg k id t pe :
   o_side agg = sd -> o_price agg <= MAXP ->
   crosses sd agg s = (0 <? o_vol agg) && admits agg (e_order pe).
 Proof.
-  intros Hq (e & Hn & _ & Hkp & _ & Hsd & _) Hwf Hpe Hs Hp. cbn in Hn. assert (e = pe) by congruence; subst e.
-  destruct (Hwf _ _ Hpe) as (_ & _ & Hk & Hle).
+  intros Hq (e & Hn & _ & Hkp & _ & Hsd & Hact) Hwf Hpe Hs Hp. cbn in Hn. assert (e = pe) by congruence; subst e.
+  destruct (Hwf _ _ Hpe) as (_ & _ & Hk & Hle). specialize (Hk (or_intror Hact)).
   unfold crosses, admits. f_equal. rewrite Hs.
   destruct sd; cbn in *.
   - (* bid aggressor against the ask side *)
@@ -224,7 +228,8 @@ Proof.
       unfold qof in Hnd. cbn in Hnd. inv Hnd. assumption. }
     assert (Hwf1 : table_wf (b_orders s1)).
     { rewrite Horders1. eapply table_wf_set; eauto.
-      destruct (Hwf _ _ Hn) as (W1 & W2 & W3 & W4). unfold entry_wf. cbn. rewrite Fp1, Fp2, Fp3. auto. }
+      destruct (Hwf _ _ Hn) as (W1 & W2 & W3 & W4). unfold entry_wf. cbn. rewrite Fp1, Fp2, Fp3. msplit; auto.
+      intros _. apply W3. right; exact Hact. }
     pose proof (match_orders_status _ _ _ _ _ _ _ Hact Hm) as (Hfilled & Hpart & Hp2act).
     rewrite Hfilled in Hrem.
     assert (Hfr_t : b_t s1 = b_t s /\ b_tick s1 = b_tick s /\ b_trading s1 = b_trading s /\ get_side s1 sd = get_side s sd
@@ -419,8 +424,8 @@ Proof.
   destruct (MAXT <? queue_time x kp t); [discriminate|]. inv H.
   unfold sd_insert, qof. cbn [sd_orders]. msplit; [|reflexivity|apply kinsert_sorted; assumption].
   apply kinsert_ref. intros [[kp' kt'] h] Hin. cbn [fst snd].
-  rewrite Forall_forall in Hf. destruct (Hf _ Hin) as (e & Hn & _ & Hp & Ht & Hside & _). cbn [fst snd] in *.
-  destruct (Hwf _ _ Hn) as (_ & _ & Hk & Hle).
+  rewrite Forall_forall in Hf. destruct (Hf _ Hin) as (e & Hn & _ & Hp & Ht & Hside & Hact). cbn [fst snd] in *.
+  destruct (Hwf _ _ Hn) as (_ & _ & Hk & Hle). specialize (Hk (or_intror Hact)).
   split.
   - rewrite (oget_tbl _ _ _ Hn). rewrite (better_eq_kp (o_side o) o (e_order e) eq_refl Hpr Hle).
     rewrite <- Hp, Hk, Hside. reflexivity.
@@ -551,7 +556,7 @@ Proof.
   destruct (negb (status_eqb (o_status (e_order e)) SNew)) eqn:Hnew.
   { inv H. auto. }
   assert (Hst : o_status (e_order e) = SNew) by (apply status_eqb_eq; destruct (status_eqb _ _); [reflexivity | discriminate]).
-  destruct (Hwf _ _ Hn) as (Wid & Wks & Wkp & Wpr).
+  destruct (Hwf _ _ Hn) as (Wid & Wks & Wkp & Wpr). specialize (Wkp (or_introl Hst)).
   set (o := set_arr (set_status (e_order e) SActive) (b_t s)) in *.
   set (sd := o_side o) in *.
   assert (Hsd : side_eqb (o_side o) sd = true) by apply side_eqb_refl.
@@ -637,4 +642,425 @@ Proof.
         -- unfold entry_wf. cbn. rewrite Hs1, Hp1. msplit; auto.
         -- intros t' v Hin. unfold sd_queue in Hq. destruct (MAXT <? queue_time (get_side s1 sd) (e_kp e) (b_t s1)); [discriminate|].
            inv Hq. eapply queue_time_later; eauto. destruct Hown1; assumption.
+Qed.
+
+(** ** Creation *)
+Lemma side_ok_app orders extra sd x : side_ok orders sd x -> side_ok (orders ++ extra) sd x.
+Proof.
+  intros Hok. eapply side_ok_frame; [exact Hok|]. intros i Hi.
+  destruct (in_qof_side _ _ _ _ Hok Hi) as (e & Hn & _).
+  rewrite nth_error_app1; [reflexivity | apply nth_error_Some; congruence].
+Qed.
+
+Theorem create_order_refines s sd v tr p s' c :
+  InvQ None s -> (match p with Some p => p <= MAXP | None => True end) ->
+  create_order s sd v tr p = (s', c) ->
+  ref_create (abs s) sd v tr p = (abs s', c) /\ InvQ None s'.
+Proof.
+  intros (Hb & Ha & Hwf & Hc) Hp H. unfold create_order in H. unfold ref_create. cbn [r_orders r_tick r_t abs].
+  assert (Hlen : length (tbl s) = length (b_orders s)) by (unfold tbl; apply map_length).
+  assert (Hmk : forall px, px <= MAXP ->
+     let o := mkOrder sd SNew (b_t s) MAXT v v px tr (length (b_orders s)) in
+     let s1 := set_orders s (b_orders s ++ [mkEntry o sd (kp_of sd px) 0]) in
+     set_rorders (abs s) (tbl s ++ [mkOrder sd SNew (b_t s) MAXT v v px tr (length (tbl s))]) = abs s1 /\ InvQ None s1).
+  { intros px Hpx o s1. split.
+    - unfold abs, set_rorders, tbl, s1. cbn. rewrite map_app, map_length. reflexivity.
+    - unfold InvQ, s1. cbn [b_orders b_bid b_ask set_orders]. msplit.
+      + apply side_ok_app; assumption.
+      + apply side_ok_app; assumption.
+      + intros i e Hi. destruct (Nat.lt_ge_cases i (length (b_orders s))) as [Hlt|Hge].
+        * rewrite nth_error_app1 in Hi by assumption. apply Hwf; assumption.
+        * rewrite nth_error_app2 in Hi by assumption.
+          destruct (i - length (b_orders s))%nat as [|k] eqn:Ek; cbn in Hi; [|destruct k; discriminate].
+          inv Hi. unfold entry_wf. cbn. msplit; auto. lia.
+      + intros i e Hi Hact _. cbn [b_orders set_orders] in Hi.
+        destruct (Nat.lt_ge_cases i (length (b_orders s))) as [Hlt|Hge].
+        * rewrite nth_error_app1 in Hi by assumption.
+          pose proof (Hc _ _ Hi Hact) as Hin. destruct (o_side (e_order e)); apply Hin; discriminate.
+        * rewrite nth_error_app2 in Hi by assumption.
+          destruct (i - length (b_orders s))%nat as [|k] eqn:Ek; cbn in Hi; [|destruct k; discriminate].
+          inv Hi. cbn in Hact. discriminate. }
+  destruct p as [p|].
+  - destruct (p mod b_tick s =? 0).
+    + inv H. destruct (Hmk p Hp) as [E1 E2]. rewrite E1. rewrite Hlen. auto.
+    + inv H. split; [reflexivity | unfold InvQ; auto].
+  - inv H. assert (Hpx : match sd with Bid => MAXP | Ask => 0 end <= MAXP) by (destruct sd; unfold MAXP; lia).
+    destruct (Hmk _ Hpx) as [E1 E2]. rewrite E1. rewrite Hlen. auto.
+Qed.
+
+(** ** Cancellation *)
+Lemma kremove_ref k id l :
+  ksorted l -> NoDup (map snd l) -> In (k, id) l ->
+  map snd (kremove k l) = remove_id id (map snd l).
+Proof.
+  induction l as [|[k' i'] t IH]; intros Hs Hnd Hin; [contradiction|]. cbn [kremove map snd remove_id].
+  destruct Hin as [E|Hin].
+  - inv E. rewrite (proj2 (keq_spec k k) eq_refl). rewrite Nat.eqb_refl. reflexivity.
+  - assert (Hne : keq k k' = false).
+    { destruct (keq k k') eqn:E; [|reflexivity]. apply keq_spec in E; subst k'.
+      pose proof (ksorted_head _ _ _ Hs Hin) as C. cbn in C. rewrite klt_irrefl in C. discriminate. }
+    rewrite Hne. inv Hnd.
+    assert (Hni : Nat.eqb i' id = false).
+    { apply Nat.eqb_neq. intros ->. apply H1. apply in_map_iff. exists (k, id); auto. }
+    rewrite Hni. cbn [map snd]. f_equal. apply IH; [eapply ksorted_tail; eauto | assumption | assumption].
+Qed.
+
+Lemma In_kremove_other k l x : In x l -> fst x <> k -> In x (kremove k l).
+Proof.
+  induction l as [|[k' v'] t IH]; intros Hin Hne; [contradiction|]. cbn.
+  destruct (keq k k') eqn:E.
+  - apply keq_spec in E; subst k'. destruct Hin as [<-|Hin]; [cbn in Hne; contradiction | assumption].
+  - destruct Hin as [<-|Hin]; [left; reflexivity | right; apply IH; assumption].
+Qed.
+
+(** removing the entry of [id] from its side: the queue loses [id] and nothing else *)
+Lemma remove_own_entry s id e x' :
+  InvQ None s -> nth_error (b_orders s) id = Some e -> o_status (e_order e) = SActive ->
+  sd_orders x' = kremove (e_kp e, e_kt e) (sd_orders (get_side s (o_side (e_order e)))) ->
+  qof x' = remove_id id (qof (get_side s (o_side (e_order e)))) /\
+  InvQ (Some id) (set_side s (o_side (e_order e)) x') /\ ~ In id (qof x').
+Proof.
+  intros Hinv Hn Hact Hrem. pose proof Hinv as (Hb & Ha & Hwf & Hc).
+  set (sd := o_side (e_order e)) in *.
+  assert (Hown : side_ok (b_orders s) sd (get_side s sd)) by (destruct sd; assumption).
+  assert (Hin : In ((e_kp e, e_kt e), id) (sd_orders (get_side s sd))) by (apply Hc; auto; discriminate).
+  pose proof (side_ok_nodup _ _ _ Hown) as Hnd.
+  destruct Hown as [Hs Hf].
+  assert (Hq : qof x' = remove_id id (qof (get_side s sd))).
+  { unfold qof. rewrite Hrem. apply kremove_ref; assumption. }
+  assert (Hnot : forall y, In y (sd_orders x') -> snd y <> id).
+  { intros [k2 i2] Hy C. cbn in C; subst i2. rewrite Hrem in Hy.
+    pose proof (In_kremove _ _ _ Hy) as Hy0.
+    rewrite Forall_forall in Hf. destruct (Hf _ Hy0) as (e2 & Hn2 & _ & Hp2 & Ht2 & _). cbn [fst snd] in *.
+    assert (e2 = e) by congruence; subst e2.
+    assert (k2 = (e_kp e, e_kt e)) by (destruct k2; cbn in *; congruence). subst k2.
+    clear - Hy Hs. induction (sd_orders (get_side s sd)) as [|[k' v'] t IH]; cbn in Hy; [contradiction|].
+    destruct (keq (e_kp e, e_kt e) k') eqn:E.
+    - apply keq_spec in E; subst k'. pose proof (ksorted_head _ _ _ Hs Hy) as C. cbn in C. rewrite klt_irrefl in C. discriminate.
+    - destruct Hy as [Hy|Hy]; [inv Hy; rewrite (proj2 (keq_spec _ _) eq_refl) in E; discriminate|].
+      apply IH; [eapply ksorted_tail; eauto | assumption]. }
+  msplit; [exact Hq | | ].
+  - unfold InvQ. rewrite b_orders_set_side.
+    assert (Hnew : side_ok (b_orders s) sd x').
+    { split; rewrite Hrem; [apply kremove_sorted; assumption|].
+      rewrite Forall_forall in *. intros y Hy. apply Hf. eapply In_kremove; eauto. }
+    msplit.
+    + destruct sd; [exact Hnew | exact Hb].
+    + destruct sd; [exact Ha | exact Hnew].
+    + exact Hwf.
+    + intros i e2 Hi Hact2 Hne. rewrite b_orders_set_side in Hi.
+      assert (Hne' : i <> id) by congruence.
+      pose proof (Hc _ _ Hi Hact2) as Hin2.
+      assert (Hgs : forall sd2, get_side (set_side s sd x') sd2 = if side_eqb sd2 sd then x' else get_side s sd2)
+        by (intros sd2; destruct sd, sd2; reflexivity).
+      rewrite Hgs. destruct (side_eqb (o_side (e_order e2)) sd) eqn:Es; [|apply Hin2; discriminate].
+      apply side_eqb_eq in Es. rewrite Hrem. apply In_kremove_other; [rewrite <- Es; apply Hin2; discriminate|].
+      cbn [fst]. intros C. injection C as C1 C2.
+      assert (In ((e_kp e, e_kt e), i) (sd_orders (get_side s sd))) by (rewrite <- C1, <- C2, <- Es; apply Hin2; discriminate).
+      apply Hne'. eapply ksorted_key_unique; eauto.
+  - intros C. unfold qof in C. apply in_map_iff in C. destruct C as (y & Ey & Hy). apply (Hnot y Hy Ey).
+Qed.
+
+Theorem cancel_order_refines s id s' :
+  InvQ None s -> cancel_order s id = Ok s' ->
+  ref_cancel (abs s) id = Some (abs s') /\ InvQ None s'.
+Proof.
+  intros Hinv H. pose proof Hinv as (Hb & Ha & Hwf & Hc).
+  unfold cancel_order in H. destruct (nth_error (b_orders s) id) as [e|] eqn:Hn; [|discriminate].
+  unfold ref_cancel. cbn [r_orders r_t abs]. rewrite (nth_error_tbl _ _ _ Hn).
+  destruct (status_eqb (o_status (e_order e)) SActive) eqn:Hst; [|inv H; auto].
+  apply status_eqb_eq in Hst.
+  destruct (Hwf _ _ Hn) as (Wid & Wks & Wkp & Wpr).
+  rewrite Wks in H.
+  destruct (sd_remove (get_side s (o_side (e_order e))) (e_kp e) (e_kt e)
+              (o_vol (set_end (set_status (e_order e) SCancelled) (b_t s)))) as [x'|] eqn:Hr; [|discriminate].
+  cbn in H. injection H as <-.
+  apply sd_remove_orders in Hr.
+  destruct (remove_own_entry s id e x' Hinv Hn Hst Hr) as (Hq & Hinv1 & Hnin).
+  set (o1 := set_end (set_status (e_order e) SCancelled) (b_t s)).
+  set (sd := o_side (e_order e)) in *.
+  (* the model writes the entry first and the side afterwards; the two commute *)
+  assert (Hcomm : set_side (set_orders s (set_nth (b_orders s) id (set_eorder e o1))) sd x'
+                  = set_orders (set_side s sd x') (set_nth (b_orders (set_side s sd x')) id (set_eorder e o1))).
+  { rewrite b_orders_set_side. destruct sd; reflexivity. }
+  rewrite Hcomm. split.
+  - rewrite abs_writeback, abs_set_side_own, rq_abs. cbn [e_order set_eorder]. rewrite Hq.
+    assert (Ht : tbl (set_side s sd x') = tbl s) by (unfold tbl; rewrite b_orders_set_side; reflexivity).
+    rewrite Ht. destruct sd; reflexivity.
+  - assert (Hn' : nth_error (b_orders (set_side s sd x')) id = Some e) by (rewrite b_orders_set_side; exact Hn).
+    pose proof Hinv1 as (Hb1 & Ha1 & _ & _).
+    assert (Hnb : ~ In id (qof (b_bid (set_side s sd x')))).
+    { unfold sd in *. destruct (o_side (e_order e)) eqn:Esd; cbn [b_bid set_side]; [exact Hnin|].
+      eapply wrong_side_not_queued; [exact Hb | exact Hn | congruence]. }
+    assert (Hna : ~ In id (qof (b_ask (set_side s sd x')))).
+    { unfold sd in *. destruct (o_side (e_order e)) eqn:Esd; cbn [b_ask set_side]; [|exact Hnin].
+      eapply wrong_side_not_queued; [exact Ha | exact Hn | congruence]. }
+    eapply (writeback_unqueued (set_side s sd x') (Some id) id e); eauto.
+    + unfold entry_wf. cbn. msplit; auto. intros [C|C]; discriminate.
+    + cbn. discriminate.
+Qed.
+
+(** ** Re-entering an order as if newly arrived (used by modifications) *)
+Lemma arrive_refines s0 ex id e_old sd o kp s2 e2 :
+  InvQ ex s0 -> (ex = None \/ ex = Some id) ->
+  nth_error (b_orders s0) id = Some e_old -> e_kside e_old = sd ->
+  ~ In id (qof (b_bid s0)) -> ~ In id (qof (b_ask s0)) ->
+  o_side o = sd -> o_price o <= MAXP -> o_id o = id -> o_status o = SActive -> kp = kp_of sd (o_price o) ->
+  (do (s1, o1) <- (if b_trading s0 then do_match sd s0 o else Ok (s0, o));
+   if status_eqb (o_status o1) SFilled then Ok (s1, set_eorder e_old o1)
+   else do (sdst, kt) <- sd_queue (get_side s1 sd) kp (b_t s1) (o_id o1) (o_vol o1);
+        Ok (set_side s1 sd sdst, mkEntry o1 sd kp kt)) = Ok (s2, e2) ->
+  (let '(r1, o1') := ref_arrive (abs s0) o in set_rorders r1 (set_nth (r_orders r1) id o1'))
+    = abs (set_orders s2 (set_nth (b_orders s2) id e2)) /\
+  InvQ None (set_orders s2 (set_nth (b_orders s2) id e2)).
+Proof.
+  intros Hinv Hex Hn Hks Hnb Hna Hosd Hopr Hoid Host Hkp H. subst kp.
+  assert (Hsd : side_eqb (o_side o) sd = true) by (rewrite Hosd; apply side_eqb_refl).
+  assert (Hnopp : ~ In id (qof (get_side s0 (opp sd)))) by (destruct (opp sd); assumption).
+  unfold ref_arrive. cbn [r_orders r_t r_trades r_tvol r_trading r_tick r_bidq r_askq abs]. rewrite Hosd.
+  assert (Hm1 : forall s1 o1, (if b_trading s0 then do_match sd s0 o else Ok (s0, o)) = Ok (s1, o1) ->
+      (if b_trading s0 then ref_match (b_t s0) o (tbl s0) (qof (get_side s0 (opp sd))) (b_trades s0) (b_tvol s0)
+       else (o, tbl s0, qof (get_side s0 (opp sd)), b_trades s0, b_tvol s0))
+      = (o1, tbl s1, qof (get_side s1 (opp sd)), b_trades s1, b_tvol s1) /\
+      InvQ ex s1 /\ loop_frame sd s0 s1 /\ side_eqb (o_side o1) sd = true /\ o_price o1 = o_price o /\ o_id o1 = o_id o /\
+      (o_status o1 = o_status o \/ o_status o1 = SFilled)).
+  { intros s1 o1 Hx. destruct (b_trading s0).
+    - eapply do_match_invq; eauto.
+    - inv Hx. msplit; auto using loop_frame_refl. }
+  destruct (if b_trading s0 then do_match sd s0 o else Ok (s0, o)) as [[s1 o1]|] eqn:Hdm; [|discriminate]. cbn in H.
+  destruct (Hm1 _ _ eq_refl) as (R & Hinv1 & Hfr & Hs1 & Hp1 & Hi1 & Hst1).
+  rewrite !rq_abs. rewrite R.
+  assert (Hn1 : nth_error (b_orders s1) id = Some e_old) by (destruct Hfr; rewrite fr_other0; assumption).
+  pose proof Hinv1 as (Hb1 & Ha1 & Hwf1 & Hc1).
+  apply side_eqb_eq in Hs1.
+  assert (Hown0 : get_side s1 sd = get_side s0 sd) by (destruct Hfr; assumption).
+  assert (Hnown1 : ~ In id (qof (get_side s1 sd))) by (rewrite Hown0; destruct sd; assumption).
+  assert (Hnopp1 : ~ In id (qof (get_side s1 (opp sd)))).
+  { intros C. assert (Hok : side_ok (b_orders s1) (opp sd) (get_side s1 (opp sd))) by (destruct sd; assumption).
+    destruct (in_qof_side _ _ _ _ Hok C) as (e3 & Hn3 & Hs3 & _). assert (e3 = e_old) by congruence; subst e3.
+    pose proof Hinv as (_ & _ & Hwf0 & _). destruct (Hwf0 _ _ Hn) as (_ & Wks & _). rewrite Hks in Wks. rewrite <- Wks in Hs3.
+    destruct sd; discriminate. }
+  assert (Hnb1 : ~ In id (qof (b_bid s1))) by (destruct sd; assumption).
+  assert (Hna1 : ~ In id (qof (b_ask s1))) by (destruct sd; assumption).
+  assert (Hr1 : set_rq (mkRef (b_t s0) (b_tick s0) (b_tvol s1) (tbl s1) (qof (b_bid s0)) (qof (b_ask s0)) (b_trades s1) (b_trading s0))
+                  (opp sd) (qof (get_side s1 (opp sd))) = abs s1) by (symmetry; apply abs_after_match; assumption).
+  rewrite Hr1.
+  destruct (status_eqb (o_status o1) SFilled) eqn:Hf1.
+  - inv H. split; [rewrite abs_writeback; reflexivity|].
+    eapply writeback_unqueued; eauto.
+    + unfold entry_wf. cbn. rewrite Hs1, Hp1, Hi1. pose proof Hinv as (_ & _ & Hwf0 & _). destruct (Hwf0 _ _ Hn) as (_ & Wks & _). msplit; auto; try congruence.
+      apply status_eqb_eq in Hf1. rewrite Hf1. intros [C|C]; discriminate.
+    + cbn. apply status_eqb_eq in Hf1. congruence.
+  - destruct (sd_queue (get_side s1 sd) (kp_of sd (o_price o)) (b_t s1) (o_id o1) (o_vol o1)) as [[x' kt]|] eqn:Hq; [|cbn in H; discriminate].
+    cbn in H. injection H as <- <-.
+    assert (Hown1 : side_ok (b_orders s1) sd (get_side s1 sd)) by (destruct sd; assumption).
+    assert (Hkp1 : kp_of sd (o_price o) = kp_of sd (o_price o1)) by (rewrite Hp1; reflexivity).
+    assert (Hpr1 : o_price o1 <= MAXP) by (rewrite Hp1; exact Hopr).
+    destruct (sd_queue_refines (b_orders s1) sd (get_side s1 sd) o1 (o_id o1) (kp_of sd (o_price o)) (b_t s1) (o_vol o1) x' kt Hown1 Hwf1 Hs1 Hpr1 Hkp1 Hq)
+      as (Hqof & Hins & Hsorted).
+    assert (Hact1 : o_status o1 = SActive).
+    { destruct Hst1 as [Hx|Hx]; [rewrite Hx; exact Host|]. rewrite Hx in Hf1. discriminate. }
+    assert (Hid1 : o_id o1 = id) by congruence.
+    rewrite Hid1 in *.
+    split.
+    + rewrite abs_writeback. cbn [e_order]. rewrite abs_set_side_own, rq_abs. rewrite Hqof.
+      assert (Ht : tbl (set_side s1 sd x') = tbl s1) by (unfold tbl; rewrite b_orders_set_side; reflexivity).
+      rewrite Ht. fold (tbl s1).
+      assert (Hro : forall q, r_orders (set_rq (abs s1) sd q) = tbl s1) by (intros q; destruct sd; reflexivity).
+      rewrite Hro. reflexivity.
+    + eapply (writeback_queued s1 ex id e_old sd o1 (kp_of sd (o_price o)) kt x'); eauto.
+      * unfold entry_wf. cbn. rewrite Hs1, Hp1. msplit; auto.
+      * intros t' v Hin. unfold sd_queue in Hq. destruct (MAXT <? queue_time (get_side s1 sd) (kp_of sd (o_price o)) (b_t s1)); [discriminate|].
+        inv Hq. eapply queue_time_later; eauto. destruct Hown1; assumption.
+Qed.
+
+(** ** Modification *)
+Lemma set_orders_id s : set_orders s (b_orders s) = s.
+Proof. destruct s; reflexivity. Qed.
+
+Lemma replace_order_refines s id e p v s1 e1 :
+  InvQ None s -> nth_error (b_orders s) id = Some e -> o_status (e_order e) = SActive -> p <= MAXP ->
+  replace_order s e p v = Ok (s1, e1) ->
+  ref_replace (abs s) id (e_order e) p v = abs (set_orders s1 (set_nth (b_orders s1) id e1)) /\
+  InvQ None (set_orders s1 (set_nth (b_orders s1) id e1)).
+Proof.
+  intros Hinv Hn Hact Hp H. pose proof Hinv as (Hb & Ha & Hwf & Hc).
+  destruct (Hwf _ _ Hn) as (Wid & Wks & Wkp & Wpr).
+  unfold replace_order in H. rewrite Wks in H.
+  set (sd := o_side (e_order e)) in *.
+  destruct (sd_remove (get_side s sd) (e_kp e) (e_kt e) (o_vol (e_order e))) as [x0|] eqn:Hr; [|discriminate].
+  cbn [rbind] in H. apply sd_remove_orders in Hr.
+  destruct (remove_own_entry s id e x0 Hinv Hn Hact Hr) as (Hq & Hinv0 & Hnin).
+  fold sd in Hq, Hinv0.
+  set (s0 := set_side s sd x0) in *.
+  set (o0 := set_price (set_vol (e_order e) v) p) in *.
+  assert (Hn0 : nth_error (b_orders s0) id = Some e) by (unfold s0; rewrite b_orders_set_side; exact Hn).
+  assert (Hnb : ~ In id (qof (b_bid s0))).
+  { unfold s0, sd in *. destruct (o_side (e_order e)) eqn:Esd; cbn [b_bid set_side]; [exact Hnin|].
+    eapply wrong_side_not_queued; [exact Hb | exact Hn | congruence]. }
+  assert (Hna : ~ In id (qof (b_ask s0))).
+  { unfold s0, sd in *. destruct (o_side (e_order e)) eqn:Esd; cbn [b_ask set_side]; [|exact Hnin].
+    eapply wrong_side_not_queued; [exact Ha | exact Hn | congruence]. }
+  assert (Habs0 : abs s0 = set_rq (abs s) sd (remove_id id (rq (abs s) sd))).
+  { unfold s0. rewrite abs_set_side_own, rq_abs, Hq. reflexivity. }
+  unfold ref_replace. fold sd. rewrite <- Habs0.
+  change (set_price (set_vol (e_order e) v) p) with o0.
+  assert (Hgoal := arrive_refines s0 (Some id) id e sd o0 (kp_of sd p) s1 e1 Hinv0 (or_intror eq_refl) Hn0 Wks Hnb Hna eq_refl Hp Wid Hact eq_refl).
+  cbn [o_price set_price set_vol o0] in Hgoal.
+  destruct (ref_arrive (abs s0) o0) as [r1 o1'].
+  apply Hgoal. exact H.
+Qed.
+
+Theorem modify_order_refines s id np nv s' :
+  InvQ None s -> (match np with Some p => p <= MAXP | None => True end) ->
+  modify_order s id np nv = Ok s' ->
+  ref_modify (abs s) id np nv = Some (abs s') /\ InvQ None s'.
+Proof.
+  intros Hinv Hp H. pose proof Hinv as (Hb & Ha & Hwf & Hc).
+  unfold modify_order in H. destruct (nth_error (b_orders s) id) as [e|] eqn:Hn; [|discriminate].
+  unfold ref_modify. cbn [r_orders r_tick abs]. rewrite (nth_error_tbl _ _ _ Hn).
+  destruct (match np with Some p => negb (p mod b_tick s =? 0) | None => false end); [inv H; auto|].
+  destruct (status_eqb (o_status (e_order e)) SActive) eqn:Hst; cbn [negb].
+  2:{ cbn in H. injection H as <-. rewrite (set_nth_same _ _ _ Hn), set_orders_id. auto. }
+  apply status_eqb_eq in Hst.
+  destruct (Hwf _ _ Hn) as (Wid & Wks & Wkp & Wpr).
+  destruct np as [p|], nv as [v|].
+  - destruct (replace_order s e p v) as [[s1 e1]|] eqn:Hr; [|discriminate]. cbn in H. injection H as <-.
+    destruct (replace_order_refines s id e p v s1 e1 Hinv Hn Hst Hp Hr) as [E I]. rewrite E. auto.
+  - destruct (replace_order s e p (o_vol (e_order e))) as [[s1 e1]|] eqn:Hr; [|discriminate]. cbn in H. injection H as <-.
+    destruct (replace_order_refines s id e p _ s1 e1 Hinv Hn Hst Hp Hr) as [E I]. rewrite E. auto.
+  - destruct (v <? o_vol (e_order e)) eqn:Hv.
+    + (* pure reduction: nothing but the volume changes *)
+      unfold reduce_order_vol in H.
+      destruct (csub (o_vol (e_order e)) (o_vol (e_order e) - v)) as [v'|] eqn:Hc1; [|discriminate]. cbn [rbind] in H.
+      destruct (sd_remove_vol (get_side s (e_kside e)) (e_kp e) (o_vol (e_order e) - v)) as [x'|] eqn:Hr; [|discriminate].
+      cbn in H. injection H as <-.
+      apply sd_remove_vol_orders in Hr.
+      assert (Hv' : v' = v). { unfold csub in Hc1. destruct (_ <=? _); inv Hc1. lia. }
+      subst v'. rewrite b_orders_set_side.
+      set (e1 := set_eorder e (set_vol (e_order e) v)).
+      split.
+      * unfold abs, tbl, set_rorders. cbn. rewrite map_set_nth. cbn.
+        assert (Hqq : forall sd2, qof (get_side (set_side s (e_kside e) x') sd2) = qof (get_side s sd2)).
+        { intros sd2. unfold qof. destruct (e_kside e), sd2; cbn; try rewrite Hr; reflexivity. }
+        pose proof (Hqq Bid) as Q1. pose proof (Hqq Ask) as Q2. cbn in Q1, Q2. rewrite Q1, Q2.
+        destruct (e_kside e); reflexivity.
+      * (* the maps are unchanged; the entry keeps key, side and status *)
+        assert (Hsame : forall sd2 x, side_ok (b_orders s) sd2 x -> side_ok (set_nth (b_orders s) id e1) sd2 x).
+        { intros sd2 x [Hs Hf]. split; [assumption|]. rewrite Forall_forall in *. intros y Hy.
+          destruct (Hf _ Hy) as (e2 & Hn2 & Hr2). destruct (Nat.eq_dec (snd y) id) as [Ey|Ney].
+          - exists e1. rewrite Ey, nth_error_set_nth_eq by (apply nth_error_Some; congruence).
+            rewrite Ey in Hn2. assert (e2 = e) by congruence; subst e2. unfold e1; cbn. auto.
+          - exists e2. rewrite nth_error_set_nth_neq by auto. auto. }
+        unfold InvQ. cbn [b_orders set_orders].
+        assert (Hbb : sd_orders (b_bid (set_orders (set_side s (e_kside e) x') (set_nth (b_orders s) id e1))) = sd_orders (b_bid s))
+          by (destruct (e_kside e); cbn; try rewrite Hr; reflexivity).
+        assert (Haa : sd_orders (b_ask (set_orders (set_side s (e_kside e) x') (set_nth (b_orders s) id e1))) = sd_orders (b_ask s))
+          by (destruct (e_kside e); cbn; try rewrite Hr; reflexivity).
+        msplit.
+        -- destruct (Hsame Bid _ Hb) as [S1 S2]. split; rewrite Hbb; assumption.
+        -- destruct (Hsame Ask _ Ha) as [S1 S2]. split; rewrite Haa; assumption.
+        -- eapply table_wf_set; eauto. unfold entry_wf, e1. cbn. auto.
+        -- intros i e2 Hi Hact2 _. cbn [b_orders set_orders] in Hi.
+           assert (Hgs : forall sd2, sd_orders (get_side (set_orders (set_side s (e_kside e) x') (set_nth (b_orders s) id e1)) sd2) = sd_orders (get_side s sd2))
+             by (intros sd2; destruct sd2; cbn [get_side]; assumption).
+           rewrite Hgs. destruct (Nat.eq_dec id i) as [->|Hne].
+           ++ rewrite nth_error_set_nth_eq in Hi by (apply nth_error_Some; congruence). inv Hi. cbn.
+              apply (Hc _ _ Hn Hst). discriminate.
+           ++ rewrite nth_error_set_nth_neq in Hi by assumption. apply (Hc _ _ Hi Hact2). discriminate.
+    + destruct (replace_order s e (o_price (e_order e)) v) as [[s1 e1]|] eqn:Hr; [|discriminate]. cbn in H. injection H as <-.
+      destruct (replace_order_refines s id e _ v s1 e1 Hinv Hn Hst Wpr Hr) as [E I]. rewrite E. auto.
+  - cbn in H. injection H as <-. rewrite (set_nth_same _ _ _ Hn), set_orders_id. auto.
+Qed.
+
+(** ** Every operation of the API, and every history *)
+Definition op_u32 (o : op) : Prop :=
+  match o with
+  | OCreate _ _ _ (Some p) | OCreatePlace _ _ _ (Some p) | OModify _ (Some p) _ | OEvent (EvModify _ (Some p) _) => p <= MAXP
+  | _ => True
+  end.
+
+Lemma InvQ_fields ex s s' :
+  b_orders s' = b_orders s -> b_bid s' = b_bid s -> b_ask s' = b_ask s -> InvQ ex s -> InvQ ex s'.
+Proof.
+  intros E1 E2 E3 (Hb & Ha & Hwf & Hc). unfold InvQ. rewrite E1, E2, E3. msplit; auto.
+  intros i e Hi Hact Hne. rewrite E1 in Hi. pose proof (Hc i e Hi Hact Hne) as Hin.
+  destruct (o_side (e_order e)); cbn [get_side] in *; [rewrite E2 | rewrite E3]; exact Hin.
+Qed.
+
+Theorem step_raw_refines s o s' x :
+  InvQ None s -> op_u32 o -> o <> OReload ->
+  step_raw s o = Ok (s', x) ->
+  ref_step (abs s) o = Some (abs s', x) /\ InvQ None s'.
+Proof.
+  intros Hinv Hu Hnr H. destruct o; cbn [step_raw] in H; cbn [ref_step].
+  - destruct (create_order s sd vol trader price) as [s1 c] eqn:E. inv H.
+    destruct (create_order_refines s sd vol trader price s' c Hinv) as [R I]; [destruct price; exact Hu | exact E |].
+    rewrite R. auto.
+  - unfold create_and_place_order in H.
+    destruct (create_order s sd vol trader price) as [s1 c] eqn:E.
+    destruct (create_order_refines s sd vol trader price s1 c Hinv) as [R I]; [destruct price; exact Hu | exact E |].
+    rewrite R. destruct c as [id|p t].
+    + destruct (place_order s1 id) as [s2|] eqn:Hp; [|discriminate]. cbn in H. inv H.
+      destruct (place_order_refines s1 id s' I Hp) as [R2 I2]. rewrite R2. auto.
+    + cbn in H. inv H. auto.
+  - destruct (place_order s id) as [s1|] eqn:Hp; [|discriminate]. inv H.
+    destruct (place_order_refines s id s' Hinv Hp) as [R I]. rewrite R. auto.
+  - destruct (cancel_order s id) as [s1|] eqn:Hp; [|discriminate]. inv H.
+    destruct (cancel_order_refines s id s' Hinv Hp) as [R I]. rewrite R. auto.
+  - destruct (modify_order s id new_price new_vol) as [s1|] eqn:Hp; [|discriminate]. inv H.
+    destruct (modify_order_refines s id new_price new_vol s' Hinv) as [R I]; [destruct new_price; exact Hu | exact Hp |].
+    rewrite R. auto.
+  - destruct (process_event s ev) as [s1|] eqn:Hp; [|discriminate]. inv H.
+    destruct ev; cbn in Hp.
+    + destruct (place_order_refines s id s' Hinv Hp) as [R I]. rewrite R. auto.
+    + destruct (cancel_order_refines s id s' Hinv Hp) as [R I]. rewrite R. auto.
+    + destruct (modify_order_refines s id new_price new_vol s' Hinv) as [R I]; [destruct new_price; exact Hu | exact Hp |].
+      rewrite R. auto.
+  - inv H. split; [reflexivity | eapply InvQ_fields; eauto].
+  - inv H. split; [reflexivity | eapply InvQ_fields; eauto].
+  - inv H. split; [reflexivity | eapply InvQ_fields; eauto].
+  - inv H. split; [reflexivity | eapply InvQ_fields; eauto].
+  - contradiction.
+Qed.
+
+Lemma InvQ_new t0 tick tr s0 : book_new t0 tick tr = Ok s0 -> InvQ None s0 /\ abs s0 = ref_new t0 tick tr.
+Proof.
+  unfold book_new. destruct (tick =? 0); [discriminate|]. intros H; inv H. split; [|reflexivity].
+  unfold InvQ. cbn. msplit.
+  - split; constructor.
+  - split; constructor.
+  - intros i e Hi. destruct i; discriminate.
+  - intros i e Hi. destruct i; discriminate.
+Qed.
+
+(** whole histories, with the results returned along the way *)
+Fixpoint run_outs (s : book) (ops : list op) : res (book * list out) :=
+  match ops with
+  | [] => Ok (s, [])
+  | o :: r => do (s1, x) <- step s o; do (s2, xs) <- run_outs s1 r; Ok (s2, x :: xs)
+  end.
+Fixpoint ref_run_outs (r : rbook) (ops : list op) : option (rbook * list out) :=
+  match ops with
+  | [] => Some (r, [])
+  | o :: rest =>
+      match ref_step r o with
+      | Some (r1, x) => match ref_run_outs r1 rest with Some (r2, xs) => Some (r2, x :: xs) | None => None end
+      | None => None
+      end
+  end.
+
+Theorem run_refines ops : forall s s' xs,
+  InvQ None s -> Forall op_u32 ops -> ~ In OReload ops ->
+  run_outs s ops = Ok (s', xs) ->
+  ref_run_outs (abs s) ops = Some (abs s', xs) /\ InvQ None s'.
+Proof.
+  induction ops as [|o r IH]; intros s s' xs Hinv Hu Hnr H; cbn in H.
+  - inv H. auto.
+  - unfold step in H. destruct (step_raw s o) as [[s1 x]|] eqn:E; [|discriminate]. cbn in H.
+    destruct (bounded s1); [|discriminate]. cbn in H.
+    destruct (run_outs s1 r) as [[s2 xs2]|] eqn:E2; [|discriminate]. cbn in H. inv H.
+    inv Hu. destruct (step_raw_refines s o s1 x Hinv H1) as [R I]; [intros C; apply Hnr; left; auto | exact E |].
+    destruct (IH s1 s' xs2 I H2) as [R2 I2]; [intros C; apply Hnr; right; assumption | exact E2 |].
+    cbn [ref_run_outs]. rewrite R, R2. auto.
 Qed.
